@@ -39,7 +39,11 @@ func newEntries(w *World, tag string, n int) []*Entry {
 		case 1:
 			iss = []string{"X", "N"}
 		}
-		es = append(es, w.SynthEntry(fmt.Sprintf("%s-%d", tag, i), i%2 == 1, iss...))
+		if i%2 == 0 || i%5 == 3 {
+			es = append(es, w.RealEntry(fmt.Sprintf("%s-%d", tag, i), i%2 == 1, iss...))
+		} else {
+			es = append(es, w.SynthEntry(fmt.Sprintf("%s-%d", tag, i), i%2 == 1, iss...))
+		}
 	}
 	return es
 }
